@@ -24,7 +24,7 @@
       resolved to.
     * `ENode = Tree (Option Nat) NameRes`-like erasures used by the evaluator-facing theorems.
 -/
-namespace IronCalc.Formula
+namespace IronCalc.RefTree
 
 inductive RefKind where
   | cell | range
@@ -135,4 +135,4 @@ def renameDefinedNameInNode (lower : String → String) (name : String) (scope :
     (new : String) : Node → Node :=
   Tree.map (fun _ r => r) (renameNameIdent lower name scope new)
 
-end IronCalc.Formula
+end IronCalc.RefTree
